@@ -84,6 +84,8 @@ bcap = find(r"async_broadcast::broadcast::<\(\)>\((\d+)\)", controller, "abort b
 floor = find(r"META_PARAMS_MUTATION_RESCALE_FLOOR:\s*f64\s*=\s*([0-9.e+-]+)", meta_adapt, "RESCALE_FLOOR", "1e-12", props="C14,C15")
 ceil = find(r"META_PARAMS_MUTATION_RESCALE_CEIL:\s*f64\s*=\s*([0-9.e+-]+)", meta_adapt, "RESCALE_CEIL", "1e12", props="C14,C15")
 
+process_rs = read("process.rs")
+reap_echild_ok = bool(re.search(r"wait::waitpid\(pgid,\s*None\)\s*\{[^}]*Ok\(_\)\s*\|\s*Err\(Errno::ECHILD\)\s*=>\s*Ok\(\(\)\)", strip_tests(process_rs), re.S))
 scale_clamped = bool(re.search(r"fn rescale_scale\(.*?\{[^}]*\.clamp\(\s*f64::MIN_POSITIVE\s*,\s*f64::MAX\s*\)", strip_tests(meta_adapt), re.S)) and \
     bool(re.search(r"mutation_scale:\s*rescale_scale\(", strip_tests(meta_adapt)))
 builtins = find(r"const BUILT_IN_TYPE_NAMES:[^=]*=\s*&\[(.*?)\];", spec_util, "BUILT_IN_TYPE_NAMES", "", props="C10")
@@ -162,6 +164,9 @@ def csvHeader : String := %s
 /-- the arguments of the `format!` call of `to_csv_row`, in order (detailed_report.rs) -/
 def csvFieldOrder : List String := %s
 
+/-- `kill_and_reap_child_proc_group` treats `ECHILD` from `waitpid` after a successful `killpg` as reaped (process.rs) -/
+def reapEchildOk : Bool := %s
+
 /-- `meta_adapt::mutate` clamps the mutated mutation scale into `[f64::MIN_POSITIVE, f64::MAX]` (`rescale_scale`) -/
 def scaleClamped : Bool := %s
 
@@ -170,7 +175,7 @@ end Cambrian.Generated
        lean_list(wl["real"]), lean_list(wl["int"]), lean_list(wl["bool"]), lean_list(wl["array"]),
        lean_list(wl["anonMap"]), lean_list(wl["enum"]), lean_list(wl["optional"]), lean_list(wl["const"]),
        json.dumps(def_prefix), json.dumps(member_prefix),
-       "true" if abort_guard else "false", "true" if completion_guard else "false", json.dumps(csv_header or ""), lean_list(csv_fields), "true" if scale_clamped else "false")
+       "true" if abort_guard else "false", "true" if completion_guard else "false", json.dumps(csv_header or ""), lean_list(csv_fields), "true" if reap_echild_ok else "false", "true" if scale_clamped else "false")
 
 old = open(OUT).read() if os.path.exists(OUT) else ""
 if gen != old:
